@@ -18,6 +18,7 @@
 import AdaptixModel.MiniPy.Analyse
 import AdaptixModel.Morph.Scalars
 import AdaptixProofs.Lemmas.MiniPy
+import AdaptixProofs.Lemmas.Catalogue
 import AdaptixProofs.Lemmas.MorphNoEscape
 
 namespace Adaptix.Morph.C04
@@ -60,10 +61,10 @@ theorem factsOf_mem (d : Val) : factsOf d ∈ tagFacts := by
     exact List.mem_of_find?_eq_some hf
   · exact objectFacts_mem
 
-/-- the oracle of a run stays within the stdlib catalogue of the closure it answers for -/
-def WithinCatalogue (oracle : SiteOracle) : Prop :=
-  ∀ strict s d prog cat, closureOf s strict = some (prog, cat) →
-    ∀ site, (oracle strict s d site).cls ∈ cat (factsOf d).tag site
+theorem siteWithin_guarded {c : SiteClass} {row : List SiteClass} (h : SiteWithin row c) : c ∈ guarded row := by
+  rcases h with h | ⟨hr, hc⟩
+  · exact mem_guarded h
+  · subst hr; subst hc; simp [guarded, uncatalogued]
 
 /-- **Layer 2**: every translated scalar loader, on every datum, with its call sites behaving in
     any way the catalogue allows, returns or raises a LoadError — never anything else. -/
@@ -98,7 +99,7 @@ theorem translated_leaf_no_escape (oracle : SiteOracle) (h : WithinCatalogue ora
     have hf := List.all_eq_true.1 hcs (factsOf d) (factsOf_mem d)
     -- abstraction soundness
     have hresp : Respects (closureEnv oracle strict s d) (aenv cat (factsOf d)) :=
-      ⟨rfl, rfl, fun site => mem_guarded (h strict s d prog cat hc site)⟩
+      ⟨rfl, rfl, fun site => siteWithin_guarded (h strict s d prog cat hc site)⟩
     have hsound := runClosure_sound (closureEnv oracle strict s d) (aenv cat (factsOf d)) hresp prog
     have hsafe := List.all_eq_true.1 hf _ hsound
     cases hr : runClosure (closureEnv oracle strict s d) prog with
@@ -176,5 +177,10 @@ example :
     closureSafe good cat = true := by decide +kernel
 
 example : closures.length ≥ 40 ∧ tagFacts.length ≥ 30 := by decide +kernel
+
+/-- the hypotheses of `translated_leaf_no_escape` are met by a concrete oracle (`witness_within`),
+    so the theorem says something: e.g. the strict int loader under that oracle does not escape -/
+example (d : Val) : (scalarLoadGen witnessOracle true "int" d).isEscape = false :=
+  translated_leaf_no_escape witnessOracle witness_within true "int" d (by decide +kernel)
 
 end Adaptix.Morph.C04
